@@ -17,6 +17,16 @@ NUMERIC = {
         dict(name='u_vect', file='polyply/src/linalg_functions.py', func='_u_vect',
              params=[('vect', 'V')], ret='V'),
     ],
+    'Gen_engine': [
+        dict(name='lj_force', file='polyply/src/nonbond_engine.py', func='_lennard_jones_force',
+             params=[('dist', 'S'), ('point', 'V'), ('ref', 'V'), ('params', ('T', 'S', 'S'))], ret='V'),
+        dict(name='pbc_min_vec', file='polyply/src/nonbond_engine.py', func='NonBondEngine.pbc_min_dist',
+             kind='assign_rhs', var='min_dist', params=[('pos_a', 'V'), ('pos_b', 'V'), ('box', 'V')], ret='V'),
+        dict(name='pbc_min_norm', file='polyply/src/nonbond_engine.py', func='NonBondEngine.pbc_min_dist',
+             kind='assign_rhs', var='dist', params=[('min_dist', 'V')], ret='S'),
+        dict(name='overlap_floor', file='polyply/src/nonbond_engine.py', func='NonBondEngine.compute_force_point',
+             kind='compare_const', left='np.array(list(dist_mat.values()))', op='<', params=[], ret='S'),
+    ],
     'Gen_backmap': [
         dict(name='place_atom', file='polyply/src/backmap.py', func='Backmap._place_init_coords',
              kind='assign_rhs', var='new_coords',
@@ -25,6 +35,10 @@ NUMERIC = {
 }
 
 DATA = {
+    'Gen_engine_consts': [
+        dict(name='tree_threshold', kind='int_compare_const', file='polyply/src/nonbond_engine.py',
+             func='NonBondEngine.add_positions', left='self.position_trees[-1].n', op='>'),
+    ],
     'Gen_dna': [
         dict(name='BASE_LIBRARY', kind='string_dict', file='polyply/src/gen_dna.py', var='BASE_LIBRARY'),
     ],
